@@ -99,7 +99,7 @@ def oracle_deriv(case):
     strong = False
     for U in dirs:
         an = float((lg * U).sum())
-        status, info = compare(lambda t: score_at(L + t * U), f0, an, S, retry_h=1e-6 if gs["base"] in ("tv", "wasserstein") else None)
+        status, info = compare(lambda t: score_at(L + t * U), f0, an, S, retry_h=1e-6 if gs["base"] in ("tv", "wasserstein") else (1e-6, 1e-8) if gs["base"] == "mmd" else None)
         if status == "bad" and abs(info["analytic"] - info["numeric"]) <= info["tol"] + 4 * cond * float(np.abs(lg * U).sum()):
             status = "ok"  # within the rounding noise of the library's own cancellation (MMD only)
         if status == "kink":
